@@ -1,4 +1,4 @@
-import NeumannModel.Parse.LexLemmas
+import NeumannModel.Parse.LexLocal
 /-
   C15 — property theorems for the lexer model (`Parse/Lex.lean`, `neumann_parser/src/lexer.rs`).
   ONLY property statements and their non-vacuity examples live here.
@@ -60,5 +60,123 @@ example : lex [⟨233, false, true, [201]⟩, ascii 'a'] = [⟨.errChar, 0, 2⟩
 example : lex (text "a /* b") = [⟨.ident, 0, 1⟩, ⟨.eof, 6, 6⟩] := by decide +kernel
 -- `ſ` (U+017F) upper-cases to `S`: the keyword lookup goes through `to_uppercase`
 example : lex [ascii 'i', ⟨383, false, true, [83]⟩] = [⟨.name "Is", 0, 3⟩, ⟨.eof, 3, 3⟩] := by decide +kernel
+
+
+/-! ### block comments and whitespace are not part of the meaning
+
+  `WellNested c` (`LexLemmas.lean`): `c` is a block comment that the scanner's own nesting rule reads to its
+  end exactly — `/*`, then a text on which the block-comment loop of `skip`, written as the relation `Closes`
+  arm by arm, returns to depth zero at the last character and not before.  The statements hold for every such
+  `c` (star runs of any length and parity before a `*/`, `/` runs before a nested `/*`, any nesting depth —
+  `well_nested_star_run`, `well_nested_slash_run_before_nested`, `well_nested_any_depth` show these families are
+  in the set), every text after it and every Unicode table. -/
+
+/-- THE CORE.  The skipping loop that meets the `/*` of a well-nested comment `c` goes on, in normal mode,
+    exactly at the end of `c`: not before (no inner `*/` ends it), not after (the closing `*/` is seen after a
+    star run of either parity) — whatever text `v` follows, from every position. -/
+theorem block_comment_scanned_exactly {c : List Ch} (h : WellNested c) (p : Nat) (v : List Ch) :
+    skip .normal p (c ++ v) = skip .normal (p + bytes c) v :=
+  skip_wellNested h p v
+
+/-- At EVERY token boundary (the lexer about to call `next_token` at byte `p` with `c ++ v` resp. `s :: v`
+    left): a well-nested comment `c` in front of `v` and a whitespace character `s` in front of `v` both yield
+    exactly the tokens of `v` — same kinds, same values, spans moved by the length of what was put in front. -/
+theorem block_comment_is_trivia_at_token_boundary {c : List Ch} (h : WellNested c) {s : Ch} (hs : s.ws = true)
+    (fuel p : Nat) (v : List Ch) :
+    lexN (fuel + 1) p (c ++ v) = (lexN (fuel + 1) p v).map (Token.shift (bytes c)) ∧
+    lexN (fuel + 1) p (s :: v) = (lexN (fuel + 1) p v).map (Token.shift s.len) :=
+  ⟨lexN_wellNested h fuel p v, lexN_ws hs fuel p v⟩
+
+/-- BLOCK COMMENTS ARE TRIVIA.  For every source text `u ++ c ++ v` where `c` is a well-nested block comment
+    and the cut is a token boundary of `u ++ " " ++ v` (`TokenBoundary u (" " ++ v) ts`: after the tokens `ts`
+    the lexer is in its skipping loop, in normal mode, at the end of `u` — i.e. the last token ended somewhere
+    in `u` and what follows it in `u` is whitespace, well-nested block comments and newline-terminated line
+    comments; in particular the cut is not inside a string, a comment or a token):
+    `tokenize(u ++ c ++ v)` and `tokenize(u ++ " " ++ v)` are both the tokens `ts` followed by the tokens of
+    `v` moved to their place — the SAME kinds and values, the spans of the tokens after the cut differing by
+    exactly `|c| - 1` bytes.  Every star-run parity before a closing mark, every nesting depth, every `u`, `v`.
+    The hypotheses on the Unicode table are facts of Rust's: the blank is whitespace and not alphanumeric, `/`
+    is not alphanumeric (the model holds for every table; one that called `/` alphanumeric would glue the
+    comment opener to a preceding identifier). -/
+theorem block_comment_is_trivia {o s : Ch} {c' : List Ch} (h : WellNested (o :: c')) (ho : o.alnum = false)
+    (hs : s.ws = true) (hs32 : s.cp = 32) (hsa : s.alnum = false) {u v : List Ch} {ts : List Token}
+    (hb : TokenBoundary u (s :: v) ts) :
+    lex (u ++ (o :: c') ++ v) = ts ++ (lex v).map (Token.shift (bytes u + bytes (o :: c'))) ∧
+    lex (u ++ s :: v) = ts ++ (lex v).map (Token.shift (bytes u + s.len)) :=
+  lex_comment_at_boundary h ho hs hs32 hsa hb
+
+/-- the special case of a text that BEGINS with the comment (no table hypothesis needed) -/
+theorem block_comment_at_start_is_trivia {c : List Ch} (h : WellNested c) {s : Ch} (hs : s.ws = true) (v : List Ch) :
+    lex (c ++ v) = (lex v).map (Token.shift (bytes c)) ∧ lex (s :: v) = (lex v).map (Token.shift s.len) :=
+  ⟨lex_wellNested h v, lex_ws hs v⟩
+
+/-- `d` levels of comments inside a comment, `/* /* … */ */` -/
+def nested (o s x y : Ch) : Nat → List Ch
+  | 0 => [o, s, x, y]
+  | d + 1 => o :: s :: nested o s x y d ++ [x, y]
+
+/-- `/*`, ANY number of `*`, `*/` is well nested: the closing mark is found after a star run of either parity
+    (`/**/`, `/***/`, `/****/`, …) -/
+theorem well_nested_star_run {o s x y : Ch} (ho : o.cp = 47) (hw : o.ws = false) (hs : s.cp = 42) (hx : x.cp = 42)
+    (hy : y.cp = 47) (st : List Ch) (hst : ∀ c ∈ st, c.cp = 42) : WellNested (o :: s :: st ++ [x, y]) :=
+  ⟨ho, hw, hs, closes_star_run hx (Closes.close x y hx hy) st hst⟩
+
+/-- a nested comment directly after ANY number of `/` (`//*`, `///*`, …) still nests -/
+theorem well_nested_slash_run_before_nested {o s : Ch} (ho : o.cp = 47) (hw : o.ws = false) (hs : s.cp = 42)
+    {c b : List Ch} (hc : WellNested c) (hb : Closes 0 b) (sl : List Ch) (hsl : ∀ c ∈ sl, c.cp = 47) :
+    WellNested (o :: s :: sl ++ c ++ b) := by
+  match c, hc with
+  | o' :: s' :: body, hc' =>
+    have h := closes_wellNested hc' hb
+    have := closes_slash_run hc'.1 h sl hsl
+    refine ⟨ho, hw, hs, ?_⟩
+    show Closes 0 (sl ++ (o' :: s' :: body) ++ b)
+    rw [List.append_assoc]
+    exact this
+
+/-- every nesting depth -/
+theorem well_nested_any_depth {o s x y : Ch} (ho : o.cp = 47) (hw : o.ws = false) (hs : s.cp = 42) (hx : x.cp = 42)
+    (hy : y.cp = 47) : ∀ d, WellNested (nested o s x y d)
+  | 0 => ⟨ho, hw, hs, Closes.close x y hx hy⟩
+  | d + 1 => ⟨ho, hw, hs, closes_wellNested (well_nested_any_depth ho hw hs hx hy d) (Closes.close x y hx hy)⟩
+
+-- non-vacuity: concrete well-nested comments (star runs of both parities, `//*`, a banner, three levels) and
+-- texts that are not (closed too early, not closed, `/*/`)
+example : WellNested (text "/* a //* b **/ c ***/") := by decide
+example : WellNested (text "/***/") ∧ WellNested (text "/**** x ****/") ∧ WellNested (text "/*/* /* d */ **/*/") ∧
+    ¬ WellNested (text "/*/") ∧ ¬ WellNested (text "/* a */ */") ∧ ¬ WellNested (text "/* /* */") := by decide
+example : WellNested (nested (ascii '/') (ascii '*') (ascii '*') (ascii '/') 4) :=
+  well_nested_any_depth rfl rfl rfl rfl rfl 4
+-- the theorem at work: the WHERE clause after `**/` is still there
+example : lex (text "/* only one row **/WHERE id") = [⟨.name "Where", 19, 24⟩, ⟨.ident, 25, 27⟩, ⟨.eof, 27, 27⟩] := by
+  decide +kernel
+example : lex (text "a/***/b") = [⟨.ident, 0, 1⟩, ⟨.ident, 6, 7⟩, ⟨.eof, 7, 7⟩] := by decide +kernel
+-- non-vacuity of `block_comment_is_trivia`: token boundaries exist — directly after a token, and after trivia
+-- that itself holds a star-run comment and a line comment
+example : TokenBoundary (text "DELETE FROM t") (text " WHERE id = 1")
+    [⟨.name "Delete", 0, 6⟩, ⟨.name "From", 7, 11⟩, ⟨.ident, 12, 13⟩] :=
+  ⟨text "DELETE FROM t", [], by simp, Trivia.nil, runN_sound 3 _ _ _ _ _ (by decide +kernel)⟩
+example : TokenBoundary (text "a /***/ -- x\n") (text " b") [⟨.ident, 0, 1⟩] :=
+  ⟨text "a", text " /***/ -- x\n", by decide,
+    Trivia.ws _ _ rfl (Trivia.block (text "/***/") _ (by decide) (Trivia.ws _ _ rfl
+      (Trivia.line (ascii '-') (ascii '-') (text " x") (ascii '\n') [] rfl rfl rfl (by decide) rfl rfl Trivia.nil))),
+    runN_sound 1 _ _ _ _ _ (by decide +kernel)⟩
+-- … and the theorem applied: the DELETE keeps its WHERE clause behind `/* only one row **/`
+example : lex (text "DELETE FROM t" ++ text "/* only one row **/" ++ text "WHERE id = 1") =
+    [⟨.name "Delete", 0, 6⟩, ⟨.name "From", 7, 11⟩, ⟨.ident, 12, 13⟩] ++
+      (lex (text "WHERE id = 1")).map (Token.shift (13 + 19)) :=
+  (block_comment_is_trivia (s := ascii ' ') (o := ascii '/') (c' := text "* only one row **/") (by decide) rfl rfl rfl rfl
+    ⟨text "DELETE FROM t", [], by simp, Trivia.nil, runN_sound 3 _ _ _ _ _ (by decide +kernel)⟩).1
+
+/-- The consume-instead-of-peek variant of the block-comment loop (`skipBlockAdvancing`, `Lex.lean`: `advance()`
+    in place of `peek2()`) is NOT this scanner: on the well-nested comment `/* x **/` the real loop stops after
+    the comment (and the blank: position 9, `WHERE id = 1` left), the variant swallows the second `*` as the
+    successor of the first, misses the closing mark and runs to the end of the text (position 21, nothing left). -/
+theorem advancing_scanner_runs_past_star_star_slash_witness :
+    WellNested (text "/* x **/") ∧
+    skip .normal 0 (text "/* x **/ WHERE id = 1") = (9, text "WHERE id = 1") ∧
+    skip (.block 0) 2 (text " x **/ WHERE id = 1") = (9, text "WHERE id = 1") ∧
+    skipBlockAdvancing 0 2 (text " x **/ WHERE id = 1") = (21, []) := by
+  decide +kernel
 
 end Neumann.Parse.Lex.Props
